@@ -79,13 +79,52 @@ func ruleC19Structure(c *core.Ctx) {
 					}
 				}
 			}
+			// the latched error: the field srcErr, an accessor that returns it (Err()),
+			// or a local that was given one of these once (sticky := s.Err())
+			isLatchedDirect := func(e ast.Expr) bool {
+				e = ast.Unparen(e)
+				if sel, ok := e.(*ast.SelectorExpr); ok && sel.Sel.Name == "srcErr" {
+					return true
+				}
+				if call, ok := e.(*ast.CallExpr); ok && len(call.Args) == 0 {
+					if f := core.Callee(info, call); f != nil {
+						if acc := c.Prog.FuncOf(f); acc != nil && acc.Decl.Body != nil && len(acc.Decl.Body.List) == 1 {
+							if rs, isRet := acc.Decl.Body.List[0].(*ast.ReturnStmt); isRet && len(rs.Results) == 1 {
+								if sel, isSel := ast.Unparen(rs.Results[0]).(*ast.SelectorExpr); isSel && sel.Sel.Name == "srcErr" {
+									return true
+								}
+							}
+						}
+					}
+				}
+				return false
+			}
+			latchedLocals := map[types.Object]bool{}
+			for _, v := range g.Vs {
+				as, ok := v.AST.(*ast.AssignStmt)
+				if !ok || len(as.Lhs) != len(as.Rhs) {
+					continue
+				}
+				for i, l := range as.Lhs {
+					if obj := core.ObjOf(info, l); obj != nil && isLatchedDirect(as.Rhs[i]) && len(defVertices(g, obj)) == 1 {
+						latchedLocals[obj] = true
+					}
+				}
+			}
 			isLatched := func(e ast.Expr) bool {
-				sel, ok := ast.Unparen(e).(*ast.SelectorExpr)
-				return ok && sel.Sel.Name == "srcErr"
+				if isLatchedDirect(e) {
+					return true
+				}
+				return latchedLocals[core.ObjOf(info, e)]
 			}
 			var latched ast.Expr
+			for obj := range latchedLocals {
+				if latched == nil {
+					latched = identUse(fn, obj)
+				}
+			}
 			ast.Inspect(fn.Decl.Body, func(n ast.Node) bool {
-				if e, ok := n.(ast.Expr); ok && isLatched(e) && latched == nil {
+				if e, ok := n.(ast.Expr); ok && isLatchedDirect(e) && latched == nil {
 					latched = e
 				}
 				return true
